@@ -277,4 +277,53 @@ def kernel_semantics():
     for p in ps:
         p.wait()
     rule("standard signals coalesce: 3 exits while SIGCHLD is pending = 1 delivery", len(hits) == 1, "deliveries=%d" % len(hits))
+    # 9. a launch that fails after the fork (cwd does not exist): Popen raises FileNotFoundError naming the cwd, and a child did
+    #    exist: it exits with 255 and is reaped EITHER by a SIGCHLD handler using waitpid(-1) OR by Popen.__init__ itself
+    reaped = []
+
+    def h(sig_, frame_):
+        try:
+            while True:
+                pid, st = os.waitpid(-1, os.WNOHANG)
+                if pid == 0:
+                    break
+                reaped.append((pid, st))
+        except ChildProcessError:
+            pass
+
+    old = signal.signal(signal.SIGCHLD, h)
+    errs, by_handler = set(), 0
+    for _ in range(40):
+        n0 = len(reaped)
+        try:
+            subprocess.Popen(["true"], cwd="/nonexistent-directory-for-vfw")
+            errs.add("no error")
+        except OSError as ex:
+            errs.add((type(ex).__name__, ex.errno, ex.filename))
+        by_handler += len(reaped) > n0
+    signal.signal(signal.SIGCHLD, old)
+    rule("exec failure after fork: FileNotFoundError(ENOENT, cwd) in the parent; the 255-exit of the short-lived child may be reaped "
+         "by a waitpid(-1) handler", errs == {("FileNotFoundError", errno.ENOENT, "/nonexistent-directory-for-vfw")}
+         and all(os.WEXITSTATUS(st) == 255 for _, st in reaped), "reaped by the handler in %d of 40 launches; %r" % (by_handler, errs))
+    # 10. kill(pid) signals one process, killpg(pgid) the whole group
+    lead = subprocess.Popen(["bash", "-c", "sleep 30 & echo $!; wait"], stdout=subprocess.PIPE, start_new_session=True)
+    member = int(lead.stdout.readline())
+    os.kill(lead.pid, signal.SIGTERM)
+    lead.wait()
+    time.sleep(0.05)
+    try:
+        os.kill(member, 0)
+        member_alive = True
+    except OSError:
+        member_alive = False
+    try:
+        os.killpg(lead.pid, signal.SIGTERM)
+        group_signalled = True
+    except OSError:
+        group_signalled = False
+    time.sleep(0.05)
+    k = vk_pair()
+    k.kill(1, signal.SIGTERM)
+    rule("kill(leader pid, SIGTERM) leaves the other members of the group running; killpg reaches them",
+         member_alive and group_signalled and k.killpg_calls == [], "member alive after kill(leader): %s" % member_alive)
     return out
